@@ -197,7 +197,7 @@
  "unwind_reason": "the per-byte loop of dx_hack_hash is closed by an in-place loop contract (named anchor in lib/ext2fs/dirhash.c, hooks-pending/htree.diff); only the 4-word seed loop is unwound; unwinding assertions on",
  "timeout": 600,
  "functions": ["lib/ext2fs/dirhash.c:ext2fs_dirhash", "lib/ext2fs/dirhash.c:dx_hack_hash"],
- "assumes": ["0 <= len <= 255: ext4 name_len is an 8-bit on-disk field; the name buffer is a 256-byte object", "version is LEGACY or LEGACY_UNSIGNED", "SHAPE OF THE SPECIFICATION: the kernel hash is a fold of its per-byte round (HH_LEGACY_ROUND of specs/htree_hash.h) over the name; the fold is evaluated by ghost statements in lock step with the real loop, and the loop invariant says that the code's (hash0, hash1) equal the fold's and that the cursors are at the fold's position; the closed function hh_legacy() is compared directly on bounded names (unit ht_dx_hack_hash_b24)", "names whose major hash is the reserved value 0xfffffffe are excluded from the equality with the kernel value (finding C10_ht_dirhash_eof, unit ht_dirhash_eof)", "seed pointer NULL or 4 arbitrary words; ret_minor_hash NULL or valid", "NEEDS the hook hooks-pending/htree.diff (named loop anchors in dirhash.c)"],
+ "assumes": ["0 <= len <= 255: ext4 name_len is an 8-bit on-disk field; the name buffer is a 256-byte object", "version is LEGACY or LEGACY_UNSIGNED", "SHAPE OF THE SPECIFICATION: the kernel hash is a fold of its per-byte round (HH_LEGACY_STEP of specs/htree_hash.h) over the name; the fold is evaluated by ghost statements in lock step with the real loop, and the loop invariant says that the code's (hash0, hash1) equal the fold's and that the cursors are at the fold's position; the closed function hh_legacy() is compared directly on bounded names (unit ht_dx_hack_hash_b24)", "names whose major hash is the reserved value 0xfffffffe are excluded from the equality with the kernel value (finding C10_ht_dirhash_eof, unit ht_dirhash_eof)", "seed pointer NULL or 4 arbitrary words; ret_minor_hash NULL or valid", "NEEDS the hook hooks-pending/htree.diff (named loop anchors in dirhash.c)"],
  "native": false
 }
 */
@@ -448,9 +448,10 @@ unsigned long long verif_g0, verif_g1, verif_g2, verif_g3, verif_g4, verif_g5, v
 				 scp == (const signed char *)name + (unsigned_flag ? 0 : verif_g4), "CHECK:cursors have their invariant value"); \
 		ucp = (const unsigned char *)name + (unsigned_flag ? verif_g4 : 0); \
 		scp = (const signed char *)name + (unsigned_flag ? 0 : verif_g4); \
-		hh_u32 n_ = HH_LEGACY_ROUND((hh_u32)verif_g0, (hh_u32)verif_g1, HH_CHAR(name, verif_g4, unsigned_flag)); \
-		verif_g1 = (hh_u32)verif_g0; \
-		verif_g0 = n_; \
+		hh_u32 a_ = (hh_u32)verif_g0, b_ = (hh_u32)verif_g1; \
+		HH_LEGACY_STEP(a_, b_, HH_CHAR(name, verif_g4, unsigned_flag)); \
+		verif_g0 = a_; \
+		verif_g1 = b_; \
 		verif_g4++; \
 	}
 #endif
@@ -604,17 +605,19 @@ void h_dirhash(void)
 	ASSUME(IN.version == HH_TEA || IN.version == HH_TEA_UNSIGNED);
 	if (IN.version == HH_TEA) dirhash_common(HH_TEA, 0); else dirhash_common(HH_TEA_UNSIGNED, 0);
 #endif
-	if (IN.len > 32 && IN.has_seed && IN.want_minor && IN.version < 3) REACH("more than one chunk, seeded, signed variant");
+	if (IN.len > (HT_CAP > 32 ? 32 : HT_CAP / 2) && IN.has_seed && IN.want_minor && IN.version < 3) REACH("long name (more than one chunk where the cap allows), seeded, signed variant");
 	if (!IN.has_seed && !IN.want_minor && IN.version >= 3) REACH("no seed pointer, no minor, unsigned variant");
 	REACH("end");
 }
 
 void h_dirhash_unsupp(void)
 {
-	ext2_dirhash_t h = IN.junk_hash, mh = IN.junk_minor;
+	ext2_dirhash_t h, mh;
 	errcode_t r;
 
 	LOAD_IN();
+	h = IN.junk_hash;
+	mh = IN.junk_minor;
 	ASSUME(IN.len >= 0 && IN.len <= HT_CAP);
 	ASSUME(IN.version < 0 || IN.version > 5);
 	r = ext2fs_dirhash(IN.version, (const char *)IN.name, IN.len, IN.has_seed ? IN.seed : NULL, &h, IN.want_minor ? &mh : NULL);
@@ -633,10 +636,11 @@ void h_dirhash_unsupp(void)
  */
 void h_dirhash_eof(void)
 {
-	ext2_dirhash_t h = IN.junk_hash;
+	ext2_dirhash_t h;
 	errcode_t r;
 
 	LOAD_IN();
+	h = IN.junk_hash;
 	ASSUME(IN.len >= 0 && IN.len <= HT_CAP);
 	r = ext2fs_dirhash(HH_LEGACY_UNSIGNED, (const char *)IN.name, IN.len, NULL, &h, NULL);
 	CHECK(r == 0, "supported version");
